@@ -53,7 +53,7 @@ class R:
             return not self.ch
         if self.kind in ('req', 'clear'):
             return False
-        return not self.v
+        return self.v is None          # "value-less": a scalar that is merely falsy (0, false, '') is a value
 
     def items(self):
         return list(self.ch.items()) if self.kind == 'map' else list(enumerate(self.ch))
